@@ -93,6 +93,25 @@ func genC14(r *rand.Rand, thorough bool) c14Case {
 	return c
 }
 
+// scriptedC14: keys whose nested fragment directories are deeper than
+// PATH_MAX (4096 bytes) - reached one component at a time by Set/Get/Delete -
+// with listings while they are live, on every file-system configuration.
+func scriptedC14(i int) c14Case {
+	c := c14Case{Config: []string{"fs", "fs-reopen", "fsaes", "expapi-fs", "expapi-fsaes", "fs-reopen"}[i%6]}
+	L := []int{3100, 6000}[i/6%2]
+	const a = "http://a.example/path?q=1#0123456789abcdefghijklmnopqrstuvwxyz"
+	long := strings.Repeat(a, L/len(a)+1)[:L]
+	c.keys = []string{long, long + "x", "s", long[:L-1]}
+	for _, k := range c.keys {
+		c.KeysB = append(c.KeysB, fmt.Sprintf("%x", k))
+	}
+	c.Ops = []kvOp{{Op: "set", Key: 0, Size: 17}, {Op: "set", Key: 2, Size: 100}, {Op: "keys", Key: 0, Prefix: ""}, {Op: "get", Key: 0},
+		{Op: "set", Key: 1, Size: 4097}, {Op: "keys", Key: 0, Prefix: long[:100]}, {Op: "reopen"}, {Op: "keys", Key: 0, Prefix: ""},
+		{Op: "delete", Key: 0}, {Op: "keys", Key: 0, Prefix: ""}, {Op: "get", Key: 1}, {Op: "get", Key: 0}, {Op: "set", Key: 3, Size: 1},
+		{Op: "keys", Key: 3, Prefix: long[:L-1]}, {Op: "delete", Key: 1}, {Op: "delete", Key: 3}, {Op: "keys", Key: 2, Prefix: ""}, {Op: "get", Key: 2}}
+	return c
+}
+
 func TestC14Seq(t *testing.T) {
 	r := run.Start(t, "C14", "sequences")
 	defer r.Finish()
@@ -102,6 +121,9 @@ func TestC14Seq(t *testing.T) {
 			continue
 		}
 		c := genC14(r.Rand(i), r.Thorough())
+		if i < 12 {
+			c = scriptedC14(i)
+		}
 		r.Begin(i, c)
 		c14Run(r, c, i)
 		if i%20 == 0 {
@@ -172,7 +194,17 @@ func c14Run(r *run.Runner, c c14Case, idx int) {
 	model := map[string][]byte{}
 	seq := 0
 	viol := func(clause, sig, msg string, opi int) {
-		r.Violation(clause, sig, fmt.Sprintf("%s (config %s, op #%d %+v, key %q len %d)", msg, c.Config, opi, c.Ops[opi], c.keys[c.Ops[opi].Key], len(c.keys[c.Ops[opi].Key])), nil)
+		k, o := c.keys[c.Ops[opi].Key], c.Ops[opi]
+		if len(k) > 120 {
+			k = k[:120] + "..."
+		}
+		if len(o.Prefix) > 60 {
+			o.Prefix = o.Prefix[:60] + "..."
+		}
+		if len(msg) > 600 {
+			msg = msg[:300] + " ... " + msg[len(msg)-200:]
+		}
+		r.Violation(clause, sig, fmt.Sprintf("%s (config %s, op #%d %+v, key %q len %d)", msg, c.Config, opi, o, k, len(c.keys[c.Ops[opi].Key])), nil)
 	}
 	// HTTP path semantics (dot segments, empty segments at the edges) make a
 	// few keys unaddressable through /debug/httpcache/{key}: not judged there
